@@ -402,10 +402,24 @@ impl Optimizer {
                                 output_schema,
                             }
                         } else if refs_right && !refs_left {
-                            // Predicate only references right side - push down to right
-                            // Need to adjust column indices
+                            // Predicate only references right side - push down to right.
+                            // The join output is `left cols ++ right cols without the right
+                            // key columns`, so an output index maps back to the right input by
+                            // re-inserting the excluded key positions (a plain offset would
+                            // point at the wrong column whenever a key precedes it).
+                            let mut sorted_keys = right_keys.clone();
+                            sorted_keys.sort_unstable();
+                            sorted_keys.dedup();
                             let adjusted_predicate =
-                                Self::adjust_predicate_columns(&predicate, -(left_cols as i32));
+                                Self::remap_predicate_columns(&predicate, &|col: usize| {
+                                    let mut idx = col - left_cols;
+                                    for &key_idx in &sorted_keys {
+                                        if key_idx <= idx {
+                                            idx += 1;
+                                        }
+                                    }
+                                    idx
+                                });
                             IRNode::Join {
                                 left,
                                 right: Box::new(IRNode::Filter {
@@ -557,8 +571,11 @@ impl Optimizer {
 
     /// Adjust column indices in a predicate by an offset
     fn adjust_predicate_columns(predicate: &Predicate, offset: i32) -> Predicate {
-        let adjust = |col: usize| -> usize { ((col as i32) + offset) as usize };
+        Self::remap_predicate_columns(predicate, &|col: usize| ((col as i32) + offset) as usize)
+    }
 
+    /// Rewrite every column index in a predicate through `adjust`
+    fn remap_predicate_columns(predicate: &Predicate, adjust: &dyn Fn(usize) -> usize) -> Predicate {
         match predicate {
             Predicate::ColumnEqConst(col, val) => Predicate::ColumnEqConst(adjust(*col), *val),
             Predicate::ColumnNeConst(col, val) => Predicate::ColumnNeConst(adjust(*col), *val),
@@ -604,12 +621,12 @@ impl Optimizer {
                 Predicate::ArithCompareConst(expr.clone(), op.clone(), *val, new_var_map)
             }
             Predicate::And(left, right) => Predicate::And(
-                Box::new(Self::adjust_predicate_columns(left, offset)),
-                Box::new(Self::adjust_predicate_columns(right, offset)),
+                Box::new(Self::remap_predicate_columns(left, adjust)),
+                Box::new(Self::remap_predicate_columns(right, adjust)),
             ),
             Predicate::Or(left, right) => Predicate::Or(
-                Box::new(Self::adjust_predicate_columns(left, offset)),
-                Box::new(Self::adjust_predicate_columns(right, offset)),
+                Box::new(Self::remap_predicate_columns(left, adjust)),
+                Box::new(Self::remap_predicate_columns(right, adjust)),
             ),
             Predicate::True => Predicate::True,
             Predicate::False => Predicate::False,
